@@ -80,7 +80,24 @@ func caseC02(c *Ctx) {
 	s := NewSess(cfg, o)
 	g := NewGen(c.R, s, p)
 	mixed, deep := false, false
+	// rejected creation calls belong to the histories as well: whatever panics must not leave entities behind
+	var creationFaults []FaultRow
+	for _, row := range FaultTable() {
+		if strings.Contains(row.Name, "NewBatch") || strings.Contains(row.Name, "BuilderNew") || strings.Contains(row.Name, "NewEntity") {
+			creationFaults = append(creationFaults, row)
+		}
+	}
 	for i := 0; i < p.Steps && !s.Failed(); i++ {
+		if i > 10 && c.R.Chance(0.05) {
+			row := &creationFaults[c.R.Intn(len(creationFaults))]
+			if fop := row.Gen(g); fop != nil {
+				if !InjectFault(s, row, fop) {
+					break
+				}
+				s.Cov.N["rejected_creations"]++
+			}
+			continue
+		}
 		op := g.Next()
 		out := s.Do(op)
 		if s.Failed() {
